@@ -66,6 +66,14 @@ func SchemaSetFromFiles(descFiles *protoregistry.Files, include func(protoreflec
 		}
 	}
 
+	for _, pkg := range pkgSet.Packages {
+		for _, ref := range pkg.Schemas {
+			if err := validateBuiltRef(ref); err != nil {
+				return nil, fmt.Errorf("package from reflect: %w", err)
+			}
+		}
+	}
+
 	return pkgSet, nil
 }
 
